@@ -339,6 +339,10 @@ func inflate0(flatCoords []float64, offset, end, stride int) Coord {
 }
 
 func inflate1(flatCoords []float64, offset, end, stride int) []Coord {
+	if stride == 0 && offset == end {
+		// A geometry without a layout has no coordinates.
+		return make([]Coord, 0)
+	}
 	coords1 := make([]Coord, (end-offset)/stride)
 	for i := range coords1 {
 		coords1[i] = inflate0(flatCoords, offset, offset+stride, stride)
